@@ -13,6 +13,8 @@
 #include <gmssl/sm9.h>
 #include <gmssl/http.h>
 #include <gmssl/tls.h>
+#include <gmssl/sm4.h>
+#include <gmssl/sm3.h>
 #include <gmssl/base64.h>
 #include <gmssl/hex.h>
 #include "vh.h"
@@ -114,8 +116,17 @@ static void blk_capacity(void) {
 		uint8_t rec[420] = { 22, 3, 3, (uint8_t)(k >> 8), (uint8_t)k }; memcpy(rec + 5, body, k); c_tlsrec(rec, 5 + k); rec[5] = 2; c_tlsrec(rec, 5 + k); vh_evals++; vh_nontriv++; }
 }
 /* type confusion: every untouched seed through every OTHER consumer */
+/* CBC-HMAC records as a peer that holds the record keys can send them (after the handshake every peer does): the decrypted plaintext is attacker-chosen.
+   Every padding value 0..255 as the fill of 3..7 blocks, and every padding value in the last octet over a fill of zeros: the reader must find its way
+   (MAC position, output length) without leaving the buffers - exact-size heap blocks in, output of the declared capacity */
+static void blk_crafted_cbc(void) {
+	if (!vh_block_begin("crafted-cbc-plaintexts")) return; SM3_HMAC_CTX hm; SM4_KEY ek, dk; uint8_t k[16], mk[32]; for (int i = 0; i < 16; i++) k[i] = (uint8_t)(0x40 + i); for (int i = 0; i < 32; i++) mk[i] = (uint8_t)(0x70 + i); sm3_hmac_init(&hm, mk, 32); sm4_set_encrypt_key(&ek, k); sm4_set_decrypt_key(&dk, k); static const uint8_t seq[8] = { 0, 0, 0, 0, 0, 0, 0, 1 };
+	for (size_t nb = 3; nb <= 7; nb++) for (int v = 0; v < 256; v++) for (int shape = 0; shape < 2; shape++) { if (!vh_next()) continue; uint8_t pt[128], iv[16], ivc[16]; memset(pt, shape ? 0 : v, sizeof pt); pt[16 * nb - 1] = (uint8_t)v; for (int i = 0; i < 16; i++) iv[i] = (uint8_t)(i + v); memcpy(ivc, iv, 16);
+		size_t bl = 16 + 16 * nb; uint8_t *rec = (uint8_t *)malloc(5 + bl); rec[0] = 23; rec[1] = 1; rec[2] = 1; rec[3] = (uint8_t)(bl >> 8); rec[4] = (uint8_t)bl; memcpy(rec + 5, iv, 16); sm4_cbc_encrypt_blocks(&ek, ivc, pt, nb, rec + 21);
+		uint8_t *out = (uint8_t *)malloc(5 + bl); size_t ol = 0; int r = tls_record_decrypt(&hm, &dk, seq, rec, 5 + bl, out, &ol); vh_evals++; vh_nontriv++; if (r == 1 && ol > 5 + bl) vh_viol("C06:crafted-cbc:length-larger-than-the-record", "\"blocks\":%zu,\"pad\":%d,\"outlen\":%zu", nb, v, ol); free(out);
+		uint8_t *o2 = (uint8_t *)malloc(bl); size_t o2l = 0; uint8_t hdr[5] = { 23, 1, 1, (uint8_t)(bl >> 8), (uint8_t)bl }; tls_cbc_decrypt(&hm, &dk, seq, hdr, rec + 5, bl, o2, &o2l); vh_evals++; free(o2); free(rec); } }
 static void blk_cross(void) { if (!vh_block_begin("cross-type")) return; for (int i = 0; i < NSEEDS; i++) for (int j = 0; j < NSEEDS; j++) { if (SEEDS[j].c == SEEDS[i].c) continue; int dup = 0; for (int k = 0; k < j; k++) if (SEEDS[k].c == SEEDS[j].c) dup = 1; if (dup) continue; if (!vh_next()) continue; feed(&SEEDS[j], SEEDS[i].d, SEEDS[i].n); } }
-static void body(void) { for (int i = 0; i < NSEEDS; i++) { char bn[64]; snprintf(bn, sizeof bn, "seed-%s", SEEDS[i].name); if (!vh_block_begin(bn)) continue; if (vh_deadline_hit()) { vh_capped = 1; continue; } mutate_seed(&SEEDS[i]); vh_sample("{\"seed\":\"%s\",\"bytes\":%zu,\"der\":%d}", SEEDS[i].name, SEEDS[i].n, SEEDS[i].der); } blk_capacity(); blk_cross(); }
+static void body(void) { for (int i = 0; i < NSEEDS; i++) { char bn[64]; snprintf(bn, sizeof bn, "seed-%s", SEEDS[i].name); if (!vh_block_begin(bn)) continue; if (vh_deadline_hit()) { vh_capped = 1; continue; } mutate_seed(&SEEDS[i]); vh_sample("{\"seed\":\"%s\",\"bytes\":%zu,\"der\":%d}", SEEDS[i].name, SEEDS[i].n, SEEDS[i].der); } blk_capacity(); blk_crafted_cbc(); blk_cross(); }
 /* ---------------- seeds ---------------- */
 #include "vnet.h"
 #include "tlsh.h"
